@@ -26,6 +26,7 @@ META = {
         "executed steps); a first invocation emits everything; every record carries executionArn and records from step "
         "functions carry operationId/operationName/attempt (+parentId inside contexts). Non-trivial = a resumed invocation "
         "with >=1 log call before and >=1 after the replay boundary; distinct = (program shape, paging, invocation outcomes)."
+        " A third of the cases have the external party fail / time out / stop / cancel callbacks and invokes, caught by the workflow: failed operations are completed work too."
     ),
     "assumptions": [
         "judged on pruned histories only: with an unpruned history the children of a short-circuited context are never visited and the logger stays silent - a property of that backend model, recorded as an observation",
